@@ -1121,9 +1121,6 @@ macro_rules! stat_2d_h {
 stat_2d_h!(stat_def_2d_2x3, 2, 3, 6);
 // @harness props=C06 tier=quick group=f64 bounds=3x3,cells=0..3,tolerance=1e-9 timeout=1800
 stat_2d_h!(stat_def_2d_3x3, 3, 3, 9);
-// @harness props=C06 tier=thorough group=f64 bounds=3x5,cells=0..3,tolerance=1e-9 timeout=3000
-stat_2d_h!(stat_def_2d_3x5, 3, 5, 15);
-
 /// KING / R0 / R1 on 3x3: ratios of the two-individual genotype-pair counts (Waples et al. 2019);
 /// compared as numerator/denominator cross-products so that no division is needed in the oracle.
 fn ratio_is(v: f64, num: i32, den: i32) -> bool {
